@@ -74,12 +74,12 @@ def worker_init(tier, seed):
 
 
 def _public_names(modname):
+    """what the module exposes: its __all__ (with, per name, whether it is really bound) and every bound public name that is not a module"""
     mod = sys.modules[modname]
-    names = getattr(mod, "__all__", None)
-    if names is None:
-        # sub-modules become attributes of their package when imported: that is Python, not a property of cdd
-        names = [n for n, v in vars(mod).items() if not n.startswith("_") and not isinstance(v, type(sys))]
-    return sorted(map(str, names))
+    declared = getattr(mod, "__all__", None)
+    # sub-modules become attributes of their package when imported: that is Python, not a property of cdd
+    bound = sorted(n for n, v in vars(mod).items() if not n.startswith("_") and not isinstance(v, type(sys)))
+    return dict(all=None if declared is None else sorted("%s%s" % (n, "" if hasattr(mod, str(n)) else " (unbound)") for n in map(str, declared)), bound=bound)
 
 
 def _child_import(order):
@@ -87,7 +87,8 @@ def _child_import(order):
     try:
         for m in order:
             importlib.import_module(m)
-        return dict(ok=True, names={m: hashlib.sha256(json.dumps(_public_names(m)).encode()).hexdigest()[:12] for m in order})
+        return dict(ok=True, names={m: hashlib.sha256(json.dumps(_public_names(m)).encode()).hexdigest()[:12] for m in order},
+                    unbound={m: [n for n in (_public_names(m)["all"] or []) if n.endswith(" (unbound)")] for m in order})
     except BaseException as e:
         tb = traceback.extract_tb(e.__traceback__)
         return dict(ok=False, exc=type(e).__name__, msg=str(e)[:300], failed_at=order[[m in sys.modules for m in order].index(False)] if not all(m in sys.modules for m in order) else order[-1])
@@ -158,6 +159,10 @@ def check_pair(a, b, runner):
             return False, []  # the length-1 history already reports that `a` cannot be imported first
         return False, [_viol([a, b], res, via)]
     viol = []
+    for m, names in (res.get("unbound") or {}).items():
+        if names:
+            # whatever the order: a module must bind every name its __all__ lists
+            viol.append(dict(sig=dict(check="all_lists_unbound_name", module=m), case=dict(kind="single", order=[a, b], via=via), expected="every name in %s.__all__ is bound" % m, observed=names[:5]))
     if runner is fork_run:
         for m, other, how in ((a, b, "after importing "), (b, a, "when imported after ")):
             ref = alone(m)
